@@ -4,7 +4,7 @@
    augment, set_amp, add_tags; Element.__getitem__/b/s/<mode>, Tonality.o, Chord.__mod__/o/__call__).
    Python's own lexer/parser (eval) is not modelled: the tie is the string equality printer <-> model rendering and the
    object equality eval(str) <-> model evaluation. *)
-From ML Require Import Model.Types gen.Tables Model.Pitch Model.Ext Model.Ton Model.Code.
+From ML Require Import Model.Types gen.Tables Model.Pitch Model.Ext Model.Ton Model.Tags Model.Code.
 From Coq Require Import QArith DecimalString.
 Open Scope Z_scope.
 Open Scope list_scope.
@@ -49,7 +49,7 @@ Definition note_text (n : fnote) : ntext :=
      (match fmode n with Some m => [TMode m] | None => [] end) ++                  (* every kind of note: r.m, x0.dorian, d0.min *)
      (match facc n with Some a => [TAcc a] | None => [] end) ++
      amp ++
-     (match ftags n with [] => [] | l => [TTags l] end)).
+     (match sort_tags (ftags n) with [] => [] | l => [TTags l] end)).     (* the tag set in sorted order *)
 
 (* ---------- evaluation ---------- *)
 Fixpoint lib_count (k : kind) (d : dir) (l : list (kind * dir * Z)) : option Z :=
@@ -113,7 +113,7 @@ Definition same_note (a b : fnote) : bool :=
   kind_eqb (fk a) (fk b) && dir_eqb (fd a) (fd b) && (fv a =? fv b) && (fo a =? fo b) && Qeq_bool (fdur a) (fdur b) &&
   option_eqb mode_eqb (fmode a) (fmode b) && option_eqb acc_eqb (facc a) (facc b) &&
   (match fk a with KR | KL => true | _ => ampfig_eqb (amp_figure (famp a)) (amp_figure (famp b)) end) &&
-  list_eqb String.eqb (ftags a) (ftags b).
+  list_eqb String.eqb (sort_tags (ftags a)) (sort_tags (ftags b)).      (* the same tag SET *)
 
 (* ---------- rendering to the printed string ---------- *)
 Open Scope string_scope.
